@@ -7,17 +7,17 @@ VERIF = os.path.dirname(os.path.dirname(os.path.abspath(__file__)))
 
 # id -> (design_ref, technique, level text, level note)
 P = {
- "C01": ("DESIGN.md §4 C01", "emission-typestate abstract interpretation of the JSON emitters (token grammar, summaries as least fixpoint) + sanitizer who-may-append rule + escape-table evaluation over the finite byte domain",
-         "Structural proof of well-formedness: every path of every emitter keeps the JSON-members grammar (separators, balanced braces, one trailing newline), non-constant data reaches the line only through the escaping function or closed-alphabet formatters, and the escape table covers every byte that needs escaping. Decides the 'is one valid JSON line' clause for all attribute trees and derivation chains; does not decide round-trip equality of values.",
+ "C01": ("DESIGN.md §4 C01", "emission-typestate abstract interpretation of the JSON emitters (token grammar, summaries as least fixpoint) + sanitizer who-may-append rule + escape-table evaluation over the finite byte domain + read-only rule on attribute memory handed in",
+         "Structural proof of well-formedness: every path of every emitter keeps the JSON-members grammar (separators, balanced braces, one trailing newline), non-constant data reaches the line only through the escaping function or closed-alphabet formatters, and the escape table covers every byte that needs escaping; the caller's attributes are never written through. Decides the 'is one valid JSON line' clause for all attribute trees and derivation chains; does not decide round-trip equality of values.",
          "Go type checker and go/ssa; contracts of strconv.Append*, Time.AppendFormat(RFC3339Nano), encoding/json Encoder output being one JSON value + newline; slog.Value.Resolve never returns a LogValuer"),
  "C02": ("DESIGN.md §4 C02", "path-count dataflow (exactly one Write per Handle path) + must-lockset + who-may-touch on the destination/mutex fields + pooled-buffer escape analysis",
          "Complete structural argument for atomic, serialised, unpolluted writes: one Write per record on every path, under a mutex that every derived handler provably shares, from a buffer that provably never escapes its Handle call and is truncated before re-entering the pool; every Handle call is behind the level gate. Holds for all schedules because it holds on all paths.",
          "sync.Mutex / sync.Pool semantics; the destination io.Writer does not retain the slice; go/ssa"),
- "C03": ("DESIGN.md §4 C03", "receiver-immutability dataflow over handler/Logger methods + clipped-inheritance flow rule on the pre-rendered bytes + immutable-after-construction on Options + sibling agreement With vs call-site emitter",
-         "Shows that no derivation or log operation can write to memory reachable from another node of the derivation tree (no store through the receiver, inherited bytes always pass a clip/copy), for all trees, orders and schedules; byte-equality with an isolated replay is argued from this plus determinism, not computed.",
+ "C03": ("DESIGN.md §4 C03", "receiver-immutability dataflow over handler/Logger methods + clipped-inheritance flow rule on the pre-rendered bytes + immutable-after-construction on Options + sibling agreement With vs call-site emitter + no-use-after-Put over every pool of the package",
+         "Shows that no derivation or log operation can write to memory reachable from another node of the derivation tree (no store through the receiver, inherited bytes always pass a clip/copy, nothing taken from a pool is used after it went back), for all trees, orders and schedules; byte-equality with an isolated replay is argued from this plus determinism, not computed.",
          "slices.Clip/Clone contracts (cap==len resp. fresh backing array); go/ssa"),
- "C04": ("DESIGN.md §4 C04", "zone (difference-bound) abstract interpretation for index/slice safety with first-iteration trace partitioning + CFG ordering rule for the precedence lookups + constant-table agreement + exactly-once path count for dispatch",
-         "Proves absence of index/slice panics in the lookup for every path and method string, exactly one relay dispatch per request, the literal > :param > * and exact > '*' method lookup order, and reader/writer agreement on the trie key namespaces. Does not prove the selected route equals a reference matcher for every table.",
+ "C04": ("DESIGN.md §4 C04", "zone (difference-bound) abstract interpretation for index/slice safety with first-iteration trace partitioning + CFG ordering rule for the precedence lookups + constant-table agreement + exactly-once path count for dispatch + no-mutation-before-error-return on the registration",
+         "Proves absence of index/slice panics in the lookup for every path and method string, exactly one relay dispatch per request, the literal > :param > * and exact > '*' method lookup order, reader/writer agreement on the trie key namespaces, that the recorded route is the walk's result or the no-route entry, and that a rejected registration leaves the tree unchanged. Does not prove the selected route equals a reference matcher for every table.",
          "go/ssa; map lookups on nil maps do not panic; net/http hands ServeHTTP a non-nil *http.Request with non-nil URL"),
  "C05": ("DESIGN.md §4 C05", "definite-(re)initialisation dataflow over every field of the pooled Store between Get and Put + constructor≡reset agreement + panic-exit reachability of Put + capacity-independence (zones) + atomic-only counter",
          "Shows that every field a handler can observe is either assigned before the relay call or reset on every path into the pool, that a Store abandoned by a panic never re-enters the pool, that value capture does not depend on the capacity fixed at creation, and that the request counter is only touched atomically; holds for every request history.",
@@ -44,13 +44,13 @@ P = {
          "Data-race freedom and per-operation atomicity for all interleavings: every access to the guarded fields holds the RWMutex in the right mode from before the first access to exit, the match-all flag is only touched atomically, no lock is taken while holding another.",
          "sync.RWMutex semantics; Go memory model; go/ssa"),
  "C13": ("DESIGN.md §4 C13", "sanitizer who-may-append rule on the text emitters + quoting-predicate evaluation over all ASCII bytes and rune classes + key/prefix join-before-quote rule + scratch-prefix typestate",
-         "Shows that every non-constant datum reaches the line through the quoting function (or a formatter whose alphabet has no separator), that the quoting predicate quotes every string containing whitespace, '=', '\"', control, non-printing or invalid bytes, and that group prefix and key are quoted as one string. Equality of unquoted tokens with inputs is delegated to strconv.",
+         "Shows that every non-constant datum reaches the line through the quoting function (or a formatter whose alphabet has no separator), that the quoting predicate quotes every string containing whitespace, '=', '\"', control, non-printing or invalid bytes, that group prefix and key are quoted as one string, and that the key is written without the group path only where the path is empty. Equality of unquoted tokens with inputs is delegated to strconv.",
          "strconv.AppendQuote output contains no raw whitespace/control and round-trips through Unquote; unicode tables; go/ssa"),
  "C14": ("DESIGN.md §4 C14", "recover-frame rule + race-freedom classification of every field Status reads or workers write (immutable / atomic-only / guarded) + per-iteration +1/-1 pairing on the pending counter",
          "Containment of task panics, race-freedom of Status for all schedules and panic value types, and the counter bounds. Exact pending count at rest is not decided.",
          "recover() only stops a panic when called directly by a deferred function; sync/atomic semantics; go/ssa"),
  "C15": ("DESIGN.md §4 C15", "defer-order and recover-frame rules in Relay + control-dependence of the 500 write + exactly-once path counts for BEG/END/Error records + attribute source agreement + status-recording rule on the response wrapper",
-         "Decides containment, the 500-iff-panicked-before-status rule, one BEG/one END per request with the same method/URI/IP/ID sources, END logged after the 500 was recorded, for every handler behaviour.",
+         "Decides containment, the 500-iff-panicked-before-status rule, one BEG/one END per request with the same method/URI/IP/ID sources, END logged after the 500 was recorded, for every handler behaviour; and that no log handler cuts the line it rendered (the ID and panic value Relay puts last reach the sink).",
          "Go defer LIFO order; net/http ignores a second WriteHeader; go/ssa"),
  "C16": ("DESIGN.md §4 C16", "shape rule (const · replace-all(s, const, const) · const) + POSIX sh lexer automaton run over the constants (symbolic string homomorphism)",
          "For the const·h(s)·const shape the universal claim reduces to a finite check of the constants through a POSIX quoting automaton; decides the quoting-model half of the property for all strings. Agreement of real shells with the model is not decided.",
